@@ -215,6 +215,7 @@ pub fn convert_events(evs: &[Event], st: &DefaultSettings<f64>, icones: &[ConeSp
 pub fn parse_print(buf: &str) -> Value {
     let lines: Vec<&str> = buf.lines().collect();
     let mut rows: Vec<i64> = vec![];
+    let mut step_dashes: Vec<bool> = vec![];       // per row: the step column shows dashes instead of a figure
     let mut footer = String::new();
     let mut stage = 0; // 0 banner, 1 config, 2 rows, 3 footer
     let mut shape_ok = true;
@@ -243,7 +244,7 @@ pub fn parse_print(buf: &str) -> Value {
         if stage == 2 && !t.is_empty() {
             let first = t.split_whitespace().next().unwrap_or("");
             match first.parse::<i64>() {
-                Ok(k) => rows.push(k),
+                Ok(k) => { rows.push(k); step_dashes.push(t.split_whitespace().last().map(|x| x.starts_with("--")).unwrap_or(false)); }
                 Err(_) => shape_ok = false,
             }
             continue;
@@ -255,7 +256,7 @@ pub fn parse_print(buf: &str) -> Value {
     if stage != 3 || dashes < 4 || rows.is_empty() {
         shape_ok = false;
     }
-    json!({"captured": true, "rows": rows, "footer": footer, "shape_ok": shape_ok})
+    json!({"captured": true, "rows": rows, "step_dashes": step_dashes, "footer": footer, "shape_ok": shape_ok})
 }
 
 pub fn done_event(run: usize, p: &Problem, st: &DefaultSettings<f64>, r: &SolveResult,
